@@ -17,12 +17,15 @@ class Model:
     fault    : optional callable (name, call_index) -> None | "nan" | "inf" | "-inf" | Exception instance
     """
 
-    def __init__(self, n=3, *, with_aux=False, fault=None, shift=0.0, curved=True, const_jac=False):
+    def __init__(self, n=3, *, with_aux=False, fault=None, shift=0.0, curved=True, const_jac=False, alias_grad=False):
         self.n, self.with_aux, self.fault, self.shift, self.curved = n, with_aux, fault, shift, curved
         # const_jac: a linear constraint's Jacobian function returns the SAME array object on every call
         # (natural for `lambda q: A`), so identity of the returned object says nothing about the state
         self.const_jac = const_jac and not curved
         self._const_jac_array = None
+        # alias_grad: the density is a standard normal and its gradient function returns its ARGUMENT (the
+        # position array object itself) -- the most natural way to write it, and legal
+        self.alias_grad = alias_grad
         self.calls = Counter()
         self.k = 1 if n == 2 else 2  # number of constraints
 
@@ -49,15 +52,21 @@ class Model:
 
     # ---- density -----------------------------------------------------------------
     def _f(self, q):
+        if self.alias_grad:
+            return 0.5 * q @ q + self.shift
         return 0.5 * q @ q + 0.1 * np.sum(q**4) + 0.3 * q[0] * q[1] + self.shift
 
     def _g(self, q):
+        if self.alias_grad:
+            return q
         g = q + 0.4 * q**3
         g[0] += 0.3 * q[1]
         g[1] += 0.3 * q[0]
         return g
 
     def _hess(self, q):
+        if self.alias_grad:
+            return np.eye(self.n)
         h = np.eye(self.n) + np.diag(1.2 * q**2)
         h[0, 1] += 0.3
         h[1, 0] += 0.3
@@ -82,6 +91,8 @@ class Model:
         q = np.array(q)
 
         def mtp(m):
+            if self.alias_grad:
+                return self._poison(np.zeros(self.n), f)
             return self._poison(2.4 * q * np.diag(m), f)
 
         return (mtp, self._hess(q), self._g(q), self._f(q)) if self.with_aux else mtp
